@@ -29,6 +29,8 @@ func init() {
 		return []*vexplore.Scenario{
 			{Name: fmt.Sprintf("surveyor-hist-D%d", d), Mode: "hist", Reset: kit.ResetGlobals, Body: func() { hist(d) },
 				NeedCounters: []string{"response-delivered", "stale-discarded", "foreign-to-other-ctx", "expired-protostate", "canceled-by-new-survey", "broadcast-complete", "late-response-discarded", "survey-time-set-during-survey", "survey-under-changed-time"}},
+			{Name: fmt.Sprintf("surveyor-idwrap-hist-D%d", d-1), Mode: "hist", Reset: kit.ResetNearIDWrap, Body: func() { histWrap(d - 1) },
+				NeedCounters: []string{"response-delivered", "stale-discarded", "survey-ids-wrapped"}},
 			{Name: "surveyor-sched-expiry-vs-response", Mode: "sched", Bound: b, Reset: kit.ResetGlobals, Cfg: vsched.Config{EarlyTimers: true}, Body: schedExpiry},
 			{Name: "surveyor-sched-newsurvey-vs-expiry-of-the-old", Mode: "sched", Bound: b, Reset: kit.ResetGlobals, Cfg: vsched.Config{EarlyTimers: true}, Body: schedNewVsExpiry},
 			{Name: "surveyor-sched-newsurvey-vs-response", Mode: "sched", Bound: b, Reset: kit.ResetGlobals, Body: schedNewSurvey},
@@ -387,6 +389,29 @@ func (w *world) settle() {
 }
 
 func hist(depth int) { histOpt(depth, false) }
+
+// histWrap: the same histories with the socket's survey id counter (seeded from the clock) starting
+// three ids before it wraps; two surveys come first, so that the free part of the history plays
+// on both sides of the wrap.
+func histWrap(depth int) {
+	w := setup()
+	for _, m := range w.ctxs[:2] {
+		kit.Tracef("event survey:%s", m.name)
+		kit.Observe("survey:%s", m.name)
+		w.doSurvey(m)
+		kit.Quiesce()
+		w.settle()
+	}
+	kit.Hist(depth-1, w.events, func() {
+		w.settle()
+		for _, m := range w.ctxs {
+			if m.cur != 0 && m.cur < 0x80000010 {
+				kit.Count("survey-ids-wrapped")
+			}
+		}
+	})
+	kit.Must("Socket.Close", func() { _ = w.sock.Close() })
+}
 
 func histOpt(depth int, late bool) {
 	w := setup()
